@@ -615,4 +615,5 @@ def finding_key(gen: Gen, cd: ClassDesc, x: Any, y: Any = None, exc: BaseExcepti
             return "frozenset-elements-not-converted-back"
         if path[i] == "d" and i < len(path) - 2:
             return "dict-keys-or-values-not-converted-back"
-    return "roundtrip-differs:" + "/".join(path)
+    kinds = {"s": "scalar", "e": "enum", "c": "dataclass", "l": "list", "fs": "frozenset", "d": "dict", "sch": "schema", "bat": "batch", "?": "value"}
+    return "roundtrip-changes-a-" + kinds.get(path[-1] if path else "?", "value")
